@@ -2,6 +2,7 @@
 //! model side).  One command per stdin line, one result line per command.
 mod bpt;
 mod ck;
+mod dmg;
 mod e2;
 mod lockeng;
 mod orc;
@@ -28,6 +29,7 @@ fn main() {
     let mut orc_engine: Option<orc::OrcEngine> = None;
     let mut cs_engine: Option<orc::CsEngine> = None;
     let mut ri_engine: Option<ri::Ri> = None;
+    let mut dmg_engine: Option<dmg::Dmg> = None;
     std::panic::set_hook(Box::new(|_| {}));
     for line in stdin.lock().lines() {
         let line = line.unwrap();
@@ -50,6 +52,7 @@ fn main() {
                     cs_engine.get_or_insert_with(orc::CsEngine::new).cmd(&toks[1..])
                 }
             }
+            "dmg" => dmg_engine.get_or_insert_with(dmg::Dmg::new).cmd(&toks[1..]),
             "ri" => ri_engine.get_or_insert_with(ri::Ri::new).cmd(&toks[1..]),
             "e2" => {
                 if toks.len() > 2 && toks[1] == "newat" {
